@@ -38,11 +38,13 @@ cutoff : 4.0
 O-O : shared 1000.0 0.3
 U-O : shared 800.0 0.35
 U-U : >0 as.buck 500.0 0.4 2.0 >3.0 as.constant 0.25 >=3.5 as.zero
+Zr-O : as.zbl 40 8
+Zr-Zr : as.zbl 40 40
 
 [Potential-Form]
 shared(r, A, rho) = A*exp(-r/rho) - inner(r, 2.0*rho) + as.buck(r, 10.0, rho, 1.0)
 inner(r, s) = s/r^2
-""", [['pair', 0, 1.0], ['pair', 1, 1.0], ['pair', 2, 3.0], ['pair', 2, 5.0], ['pair', 2, 3.5], ['pair', 2, 3.2]])
+""", [['pair', 0, 1.0], ['pair', 1, 1.0], ['pair', 2, 3.0], ['pair', 2, 5.0], ['pair', 2, 3.5], ['pair', 2, 3.2], ['force', 3, 0.5], ['pair', 4, 0.7], ['force', 4, 0.7]])
 MODELS['pairB'] = ("""[Tabulation]
 target : LAMMPS
 nr : 5
@@ -166,6 +168,8 @@ def probe(tab, p):
     kind, idx, x = p
     if kind == 'pair':
         return tab.potentials[idx].energy(x)
+    if kind == 'force':
+        return tab.potentials[idx].force(x)
     ep = tab.eam_potentials[idx]
     if kind == 'embed':
         return ep.embeddingFunction(x)
@@ -241,7 +245,7 @@ def cases(tier):
         for k in range(min(2 if tier == 'quick' else 3, len(MODELS[n][1]))):
             alphabet.append(['E', n, k])
     # every model has at least its boundary probes in the alphabet
-    extra = [['E', 'pairA', 2], ['E', 'pairA', 3], ['E', 'pairA', 4], ['E', 'pairA', 5], ['E', 'pairB', 2], ['E', 'pairB', 4]]      # (pairB probe 4: a form used directly that another form also calls)
+    extra = [['E', 'pairA', 2], ['E', 'pairA', 3], ['E', 'pairA', 4], ['E', 'pairA', 5], ['E', 'pairB', 2], ['E', 'pairB', 4], ['E', 'pairA', 6], ['E', 'pairA', 7], ['E', 'pairA', 8]]      # (pairB probe 4: a form used directly that another form also calls)
     for e in extra:
         if e not in alphabet:
             alphabet.append(e)
